@@ -593,6 +593,21 @@ func runArtefacts(h *hz.H, md protoreflect.MessageDescriptor, only *c09case) {
 		cmp("Has", func(m protoreflect.Message, s bool) string { return fmt.Sprint(m.Has(fdOf(m, a.fd))) })
 		cmp("Get", func(m protoreflect.Message, s bool) string { return rv(a.fd, m.Get(fdOf(m, a.fd)), s) })
 		cmp("Range", func(m protoreflect.Message, s bool) string { return rangeSet(m, s) })
+		switch {
+		case a.fd.IsMap():
+			k0 := enum.ScalarAlphabet(a.fd.MapKey(), enum.Reduced)[0].MapKey() // the artefact stores its nil value under the zero key
+			cmp("Get.Map.Has(k)", func(m protoreflect.Message, s bool) string { return fmt.Sprint(m.Get(fdOf(m, a.fd)).Map().Has(k0)) })
+			cmp("Get.Map.Get(k)", func(m protoreflect.Message, s bool) string {
+				return rscalar(a.fd.MapValue(), m.Get(fdOf(m, a.fd)).Map().Get(k0), s)
+			})
+			cmp("Get.Map.Len", func(m protoreflect.Message, s bool) string { return fmt.Sprint(m.Get(fdOf(m, a.fd)).Map().Len()) })
+		case a.fd.IsList():
+			cmp("Get.List.Len", func(m protoreflect.Message, s bool) string { return fmt.Sprint(m.Get(fdOf(m, a.fd)).List().Len()) })
+			cmp("Get.List.Get(last)", func(m protoreflect.Message, s bool) string {
+				l := m.Get(fdOf(m, a.fd)).List()
+				return rscalar(a.fd, l.Get(l.Len()-1), s)
+			})
+		}
 		if od := a.fd.ContainingOneof(); od != nil {
 			cmp("WhichOneof", func(m protoreflect.Message, s bool) string {
 				w := m.WhichOneof(m.Descriptor().Oneofs().ByName(od.Name()))
@@ -632,6 +647,15 @@ func runArtefacts(h *hz.H, md protoreflect.MessageDescriptor, only *c09case) {
 				report("Size/Marshal", fmt.Sprintf("%s with %s in field %s: generated size=%d bytes=%x, reference bytes=%x", tname, a.name, a.fd.Name(), gotSize, gotB, refB))
 			}
 			// generic library calls must accept what the reference accepts
+			// a nil element / value reads as an empty message: two such messages are equal, and so is a clone
+			{
+				x, _ := mk()
+				y, _ := mk()
+				var e1, e2, e3 bool
+				if pv := hz.Catch(func() { e1 = proto.Equal(x, y); e2 = proto.Equal(y, x); e3 = proto.Equal(proto.Clone(x), x) }); pv == nil && !(e1 && e2 && e3) {
+					report("proto.Equal-verdict", fmt.Sprintf("two %s messages holding %s in field %s: Equal(x,y)=%v Equal(y,x)=%v Equal(Clone(x),x)=%v; a nil element reads as an empty message, so all must be true", tname, a.name, a.fd.Name(), e1, e2, e3))
+				}
+			}
 			for _, l := range []struct {
 				name string
 				f    func(x proto.Message)
